@@ -130,17 +130,28 @@ def rule_phase(ctx, rep):
     # (d)
     tk = model.func('block_tokenizer.tokenize')
     mt = model.func('block_tokenizer.make_tokens')
-    ok = False
-    for n in walk_function(tk.node):
-        if isinstance(n, ast.Return) and isinstance(n.value, ast.Call) and isinstance(n.value.func, ast.Name) \
-                and n.value.func.id == mt.name and n.value.args:
-            a = n.value.args[0]
-            if isinstance(a, ast.Name):
-                defs = [x.value for x in walk_function(tk.node) if isinstance(x, ast.Assign)
-                        and any(isinstance(t, ast.Name) and t.id == a.id for t in x.targets)]
-                a = defs[0] if len(defs) == 1 else a
-            if isinstance(a, ast.Call) and isinstance(a.func, ast.Name) and a.func.id == tb.name:
-                ok = True
+    # decided by interpreting tokenize with both callees replaced by recorders: on every path make_tokens gets the
+    # very object tokenize_block returned, after tokenize_block has returned, and its result is what is returned
+    outcomes = []
+
+    def phase_runner(oracle):
+        it = Interp(model)
+        it.reset_run(oracle)
+        log = []
+        pb, toks = object(), object()
+        it.func_hooks[tb.qualname] = lambda interp, fi, args, kwargs: log.append(('block', list(args))) or pb
+        it.func_hooks[mt.qualname] = lambda interp, fi, args, kwargs: log.append(('make', list(args))) or toks
+        src, types = Unknown('iterable'), Unknown('token_types')
+        try:
+            ret = it.call_function(tk, [src, types], {})
+        except Raised as r:
+            return 'raises %s' % r.exc.kind
+        good = (len(log) == 2 and log[0][0] == 'block' and log[0][1][:2] == [src, types]
+                and log[1][0] == 'make' and log[1][1][:1] == [pb] and ret is toks)
+        return True if good else [x[0] for x in log]
+    for trace, res in enumerate_paths(phase_runner, 32):
+        outcomes.append(res)
+    ok = bool(outcomes) and all(o is True for o in outcomes)
     rep.obligation('R-PHASE', ok, {'clause': 'make_tokens(tokenize_block(...)) - whole block phase evaluated first'})
     if not ok:
         rep.find('R-PHASE', tk.short, 'phase-order', 'block_tokenizer.tokenize does not pass the complete tokenize_block '
